@@ -22,7 +22,11 @@ EVIDENCE = {
             'replies are lost and replies are delayed around the timer period; sessions end with close_link at a seeded '
             'instant (possibly with timers pending) and the object is reopened.  The driver close takes 0-100 ms of virtual '
             'time during which packets handed to it are accepted and discarded.  The table of pending answers is observed '
-            'through a dict subclass, i.e. at the library\'s own reads and writes under its own lock.',
+            'through a dict subclass, i.e. at the library\'s own reads and writes under its own lock.  10 % of the plans run '
+            'over the real RadioDriver instead (fake dongle, ESB/safelink peer, SimCF echo service): the radio thread of one '
+            'driver object is started 1-3 times (pause/restart, close/connect) against a peer that confirms safelink or not; '
+            'on a safelink link a request must reach the Crazyflie exactly once even if its reply is later than the timeout, '
+            'without safelink a request the firmware ignores k times must be retransmitted until it is answered.',
     'directed': 'reply delay swept across the timer period (timeout-2ms .. timeout+2ms in 0.5 ms steps) for one request',
     'real': ['Crazyflie.send_packet', '_no_answer_do_retry', '_check_for_answers', 'close_link', '_link_error_cb',
              'threading.Timer logic', '_IncomingPacketHandler', 'TocFetcher/Memory/Log requests during the handshake'],
